@@ -564,6 +564,9 @@ def check_reset_for_rerun(ctx, why: str):
         dd = [d for d in deletes_dd if len(d.site.call.args) > 1 and mentions(d.site.call.args[1], names) and not conditional(d.site.call)]
         cut = [c for c in calls_in(fi.node) if callee_name(c) == "del_sources" and ast.unparse(c.func.value) == "self" and c.args and mentions(c.args[0], names) and not conditional(c)]
         ctx.check(kind == "name" and bool(dd) and bool(cut), fi.fq, "dynamic inputs: their dynamic_dep rows and their edges are deleted", f"rows bound to {v!r}: dynamic_dep deleted={bool(dd)}, edges deleted={bool(cut)}: {why}", "both deleted", where=ctx.where_of(fi, s1.site.call))
+    # the deferred flag goes with the dynamic inputs that were the reason for it
+    dfl = [s_ for s_ in stmts if s_.kind == "UPDATE" and ("UPDATE", "step", "deferred", None) in s_.writes and re.search(r"SET deferred = (FALSE|0)\b", flat(s_.text), re.I) and "node = ?" in flat(s_.text) and not conditional(s_.site.call)]
+    ctx.check(len(dfl) == 1, fi.fq, "the deferred flag is cleared together with the dynamic inputs", f"{len(dfl)} unconditional statement(s) clearing step.deferred: a step that is reset without running (a reverted optional step that had deferred) stays parked with no dynamic input left whose change could wake it, and is never dispatched again: {why}", "UPDATE step SET deferred = FALSE WHERE node = ?")
     # dynamic environment variables and globs
     env = [s_ for s_ in stmts if s_.kind == "DELETE" and "FROM env_var" in flat(s_.text) and re.search(r"dynamic = 1", flat(s_.text)) and "node = ?" in flat(s_.text) and not conditional(s_.site.call)]
     ctx.check(len(env) == 1, fi.fq, "dynamic environment variables are forgotten", f"{len(env)} unconditional DELETE FROM env_var ... dynamic = 1: {why}", "deleted")
